@@ -131,6 +131,14 @@ pub fn gen_pool(rng: &mut Rng) -> Program {
         } else {
             vec![]
         };
+        // despawning while the pool is at work: a caller thread asks for it in the middle of the phase
+        if pi > 0 && g.rng.permille(400) {
+            let mut t = vec![];
+            let y = g.rng.range(1, 6) as u8;
+            t.push({ let __k = OpKind::Yield(y); g.op(__k) });
+            t.push({ let __k = OpKind::Despawn; g.op(__k) });
+            threads.push(t);
+        }
         prog.phases.push(Phase { ctl, threads, env_gates: env, env_streams: vec![] });
     }
     let _ = cur;
